@@ -740,6 +740,13 @@ class Serialization:
             out, val, serialization=self, subtypes=type_tree.subtypes
         )
 
+    def _all_codecs_known(self, type_tree: SubtypeTree) -> bool:
+        """Check: does every name in ``type_tree`` have a codec?"""
+
+        return type_tree.name in self.codecs and all(
+            self._all_codecs_known(subtype) for subtype in type_tree.subtypes
+        )
+
     @staticmethod
     def _parse_type(type_name: str) -> SubtypeTree:
         """Given an encoded aux_data type_name, generate its parse tree.
@@ -843,6 +850,12 @@ class Serialization:
             all_bytes = raw_bytes
         else:
             all_bytes = raw_bytes.read()
+        if not self._all_codecs_known(parse_tree):
+            # An unknown codec anywhere in the type makes the whole value
+            # opaque, whether or not these particular bytes reach it (an empty
+            # container or another variant alternative may come first);
+            # otherwise it could not be written back unchanged.
+            return UnknownData(all_bytes)
         try:
             return self._decode_tree(
                 io.BytesIO(all_bytes), parse_tree, get_by_uuid
